@@ -301,6 +301,8 @@ private theorem stepWith_cache (s : State) (op : Op) (fresh : Res) :
   | setCe i v => left; simp [stepWith, setMsg_cache]
   | setTe i on => left; simp [stepWith, setMsg_cache]
   | setCl i n => left; simp [stepWith, setMsg_cache]
+  | setTr i t => left; simp [stepWith, setMsg_cache]
+  | setVer i w => left; simp [stepWith, setMsg_cache]
 
 /-- any predicate on cache entries that holds for entries made from true codec facts is preserved -/
 private theorem step_pres (C : Codecs) (P : Entry → Prop) (s : State) (op : Op)
@@ -644,9 +646,22 @@ private theorem setContent_len (c : Cache) (m : Msg) (v : Bytes) (fresh : Res)
   | nil => simp at h
   | done => simp at h
 
+private theorem setContent_meta (c : Cache) (m : Msg) (v : Option Bytes) (fresh : Res) :
+    (setContent c m v fresh).2.2.tr = m.tr ∧ (setContent c m v fresh).2.2.ver = m.ver := by
+  cases v with
+  | none => exact ⟨rfl, rfl⟩
+  | some v =>
+    unfold setContent
+    simp only
+    generalize encodeStep c v (ceOrIdentity m.ce) strictB fresh = p
+    obtain ⟨r, c'⟩ := p
+    cases r <;> simp only [fixLen] <;> (try split) <;> first | exact ⟨rfl, rfl⟩ | exact ⟨trivial, trivial⟩
+
 /-- **C31 (Content-Length).** After any history, whenever `set_content(v)` completes: without a
     Transfer-Encoding header the Content-Length header equals the length of the stored raw body; with one,
-    the Content-Length header is left untouched.  (Holds for every coding, whatever the codec returns.) -/
+    the Content-Length header is left untouched.  Holds for every coding, whatever the codec returns, and — the
+    message state carries them — WHATEVER the message's trailers (absent / empty / non-empty) and HTTP version
+    are: the rule looks at the Transfer-Encoding header only, and the assignment leaves trailers and version alone. -/
 theorem content_length_eq_raw_len_without_TE (C : Codecs) (s0 : State) (ops : List Op) (i : Bool) (v : Bytes)
     (h : (step C (run C s0 ops).1 (.setContent i (some v))).2 = .done) :
     (((run C s0 ops).1.msg i).te = false →
@@ -654,11 +669,15 @@ theorem content_length_eq_raw_len_without_TE (C : Codecs) (s0 : State) (ops : Li
         ((step C (run C s0 ops).1 (.setContent i (some v))).1.msg i).cl = some raw.length) ∧
     (((run C s0 ops).1.msg i).te = true →
       ((step C (run C s0 ops).1 (.setContent i (some v))).1.msg i).cl = ((run C s0 ops).1.msg i).cl) ∧
-    ((step C (run C s0 ops).1 (.setContent i (some v))).1.msg i).te = ((run C s0 ops).1.msg i).te := by
+    ((step C (run C s0 ops).1 (.setContent i (some v))).1.msg i).te = ((run C s0 ops).1.msg i).te ∧
+    ((step C (run C s0 ops).1 (.setContent i (some v))).1.msg i).tr = ((run C s0 ops).1.msg i).tr ∧
+    ((step C (run C s0 ops).1 (.setContent i (some v))).1.msg i).ver = ((run C s0 ops).1.msg i).ver := by
   generalize (run C s0 ops).1 = s at h ⊢
   rw [step_set] at h ⊢
   simp only [setMsg_msg]
-  exact setContent_len _ _ _ _ h
+  obtain ⟨h1, h2, h3⟩ := setContent_len _ _ _ _ h
+  obtain ⟨h4, h5⟩ := setContent_meta s.cache (s.msg i) (some v) (freshOf C s (.setContent i (some v)))
+  exact ⟨h1, h2, h3, h4, h5⟩
 
 /-! ### the raw body after an assignment (sentence 2 of the property) -/
 
@@ -739,7 +758,7 @@ theorem raw_decodes_to_content_partial (C : Codecs) (s0 : State) (h0 : s0.cache 
     simp [href]
 
 /-- the F-C31a history on the toy codecs: message 0 has an empty raw body under "br"; read it, assign `b""` -/
-private def cexState : State := ⟨none, ⟨some [], some [0x62, 0x72], false, none⟩, emptyMsg⟩
+private def cexState : State := ⟨none, ⟨some [], some [0x62, 0x72], false, none, .absent, .h11⟩, emptyMsg⟩
 
 /-- **C31 (raw body) — the full statement is FALSE (F-C31a).**  With the toy codecs (which satisfy every law):
     after reading the empty body, assigning the same (empty) content is a cache hit and leaves the empty raw
@@ -868,14 +887,14 @@ private theorem msgEncode_spec {C : Codecs} {c : Cache} (hi : Inv C c) (m : Msg)
     (∀ st f2, (getContent (msgEncode c m cd f).2.1 (msgEncode c m cd f).2.2 st f2).1 = .ok v) ∧
     (kindOf (effName (some cd)) = .unknown → (msgEncode c m cd f).1 = .verr) ∧
     (kindOf (effName (some cd)) ≠ .unknown → (msgEncode c m cd f).1 = .done) := by
-  obtain ⟨raw, ce, te, cl⟩ := m
+  obtain ⟨raw, ce, te, cl, tr, ver⟩ := m
   simp only at hr
   subst hr
-  obtain ⟨h1, h2⟩ := get_after_set hi ⟨some v, some cd, te, cl⟩ v f hok hf
-  have hst : (msgEncode c ⟨some v, ce, te, cl⟩ cd f).2 = (setContent c ⟨some v, some cd, te, cl⟩ (some v) f).2 :=
-    msgEncode_state c ⟨some v, ce, te, cl⟩ cd f h1
-  have hme : ∀ p, setContent c ⟨some v, some cd, te, cl⟩ (some v) f = p →
-      msgEncode c ⟨some v, ce, te, cl⟩ cd f =
+  obtain ⟨h1, h2⟩ := get_after_set hi ⟨some v, some cd, te, cl, tr, ver⟩ v f hok hf
+  have hst : (msgEncode c ⟨some v, ce, te, cl, tr, ver⟩ cd f).2 = (setContent c ⟨some v, some cd, te, cl, tr, ver⟩ (some v) f).2 :=
+    msgEncode_state c ⟨some v, ce, te, cl, tr, ver⟩ cd f h1
+  have hme : ∀ p, setContent c ⟨some v, some cd, te, cl, tr, ver⟩ (some v) f = p →
+      msgEncode c ⟨some v, ce, te, cl, tr, ver⟩ cd f =
         (match p with
          | (.done, c', m') => if m'.ce.isNone then (.verr, c', m') else (.done, c', m')
          | (r, c', m') => (r, c', m')) := by
@@ -888,14 +907,14 @@ private theorem msgEncode_spec {C : Codecs} {c : Cache} (hi : Inv C c) (m : Msg)
     exact h2 st f2
   · intro hk
     have hni : kindOf (effName (some cd)) ≠ .identity := by rw [hk]; decide
-    rw [hme _ (setContent_unknown hi ⟨some v, some cd, te, cl⟩ v f hk (hf (not_identity_contains hni)))]
+    rw [hme _ (setContent_unknown hi ⟨some v, some cd, te, cl, tr, ver⟩ v f hk (hf (not_identity_contains hni)))]
     simp [fixLen_ce]
   · intro hnu
     rcases hok with hk | hk | hk
-    · rw [hme _ (setContent_identity hi ⟨some v, some cd, te, cl⟩ v f hk)]
+    · rw [hme _ (setContent_identity hi ⟨some v, some cd, te, cl, tr, ver⟩ v f hk)]
       simp [fixLen_ce]
     · have hni : kindOf (effName (some cd)) ≠ .identity := by rw [hk]; decide
-      obtain ⟨x, c', hs, _⟩ := setContent_cached hi ⟨some v, some cd, te, cl⟩ v f hk (hf (not_identity_contains hni))
+      obtain ⟨x, c', hs, _⟩ := setContent_cached hi ⟨some v, some cd, te, cl, tr, ver⟩ v f hk (hf (not_identity_contains hni))
       rw [hme _ hs]
       simp [fixLen_ce]
     · exact absurd hk hnu
@@ -999,7 +1018,7 @@ private def gzipN : Bytes := [0x67, 0x7a, 0x69, 0x70]  -- "gzip"
 private def fooN : Bytes := [0x66, 0x6f, 0x6f]         -- "foo"
 private def utf8N : Bytes := [0x75, 0x74, 0x66, 0x38]  -- "utf8"
 /-- message 0: peer body `1 :: [7, 8]` (toy-compressed `[7, 8]`) under Content-Encoding "BR" -/
-private def okState : State := ⟨none, ⟨some [1, 7, 8], some brU, false, none⟩, emptyMsg⟩
+private def okState : State := ⟨none, ⟨some [1, 7, 8], some brU, false, none, .absent, .h11⟩, emptyMsg⟩
 
 -- kinds really occur, and `OkName` covers absent / empty / mixed-case / unknown headers
 example : kindOf gzipN = .cached ∧ kindOf brN = .cached ∧ kindOf identityB = .identity ∧ kindOf fooN = .unknown ∧
@@ -1009,22 +1028,22 @@ example : OkName (effName none) ∧ OkName (effName (some [])) ∧ OkName (effNa
 -- the cache is really used: reading fills it, and the following assignment is a hit that keeps the peer's bytes
 example : (run toy okState [.getContent false true]).1.cache = some ⟨[1, 7, 8], brN, strictB, [7, 8]⟩ := by decide
 example : (run toy okState [.getContent false true]).2 = [.ok [7, 8]] := by decide
-example : (run toy ⟨none, ⟨some [2, 7], some brN, false, none⟩, emptyMsg⟩
+example : (run toy ⟨none, ⟨some [2, 7], some brN, false, none, .absent, .h11⟩, emptyMsg⟩
     [.getContent false true, .setContent false (some [7]), .getContent false true]).1.m0.raw = some [2, 7] := by decide
 -- … while an interleaved call on another body evicts the entry and the canonical stream is stored
-example : (run toy ⟨none, ⟨some [2, 7], some brN, false, none⟩, emptyMsg⟩
+example : (run toy ⟨none, ⟨some [2, 7], some brN, false, none, .absent, .h11⟩, emptyMsg⟩
     [.getContent false true, .enc [9] gzipN strictB, .setContent false (some [7]), .getContent false true]).1.m0.raw
     = some [1, 7] := by decide
 -- the decoder does reject something; text codecs let TypeError through and leave the message alone
 example : (step toy okState (.dec [3, 3] brN strictB)).2 = .verr := by decide
-example : (step toy ⟨none, ⟨some [5], some utf8N, false, some 1⟩, emptyMsg⟩ (.setContent false (some [6]))) =
-    (⟨none, ⟨some [5], some utf8N, false, some 1⟩, emptyMsg⟩, .terr) := by decide
+example : (step toy ⟨none, ⟨some [5], some utf8N, false, some 1, .absent, .h11⟩, emptyMsg⟩ (.setContent false (some [6]))) =
+    (⟨none, ⟨some [5], some utf8N, false, some 1, .absent, .h11⟩, emptyMsg⟩, .terr) := by decide
 -- hypotheses of `decode_encode_preserves` hold on a non-trivial state, and the pipeline does what it says
 example : (step toy okState (.getContent false true)).2 = .ok [7, 8] := by decide
 example : (run toy okState [.mdecode false true, .mencode false gzipN, .getContent false true]).2 =
     [.done, .done, .ok [7, 8]] := by decide
 example : (run toy okState [.mdecode false true, .mencode false fooN, .getContent false true]) =
-    (⟨some ⟨[1, 7, 8], brN, strictB, [7, 8]⟩, ⟨some [7, 8], none, false, some 2⟩, emptyMsg⟩, [.done, .verr, .ok [7, 8]]) := by decide
+    (⟨some ⟨[1, 7, 8], brN, strictB, [7, 8]⟩, ⟨some [7, 8], none, false, some 2, .absent, .h11⟩, emptyMsg⟩, [.done, .verr, .ok [7, 8]]) := by decide
 -- the guards are satisfiable and discriminate: strict history vs. the F-C31a history
 example : strictHist toy okState [.getContent false true, .setContent false (some [7, 8])] = true := by decide
 example : strictHist toy cexState [.getContent false true] = false := by decide
@@ -1032,7 +1051,7 @@ example : lenientHit toy (run toy cexState [.getContent false true]).1.cache [] 
 example : lenientHit toy (run toy okState [.getContent false true]).1.cache [7, 8] brN = false := by decide
 -- Content-Length: written without Transfer-Encoding, untouched with it
 example : ((step toy okState (.setContent false (some [4, 4, 4]))).1.m0.cl,
-    (step toy ⟨none, ⟨none, some brN, true, some 99⟩, emptyMsg⟩ (.setContent false (some [4]))).1.m0.cl) =
+    (step toy ⟨none, ⟨none, some brN, true, some 99, .absent, .h11⟩, emptyMsg⟩ (.setContent false (some [4]))).1.m0.cl) =
     (some 4, some 99) := by decide
 
 /-! ## round 3: statements over whole histories of get / set / decode / encode ops -/
@@ -1078,6 +1097,12 @@ theorem message_ops_isolated (C : Codecs) (s : State) (op : Op) (j : Bool) (h : 
     have hij : i ≠ j := by intro e; subst e; simp [Op.writes] at h
     exact setMsg_msg_ne _ _ hij
   | setCl i n =>
+    have hij : i ≠ j := by intro e; subst e; simp [Op.writes] at h
+    exact setMsg_msg_ne _ _ hij
+  | setTr i t =>
+    have hij : i ≠ j := by intro e; subst e; simp [Op.writes] at h
+    exact setMsg_msg_ne _ _ hij
+  | setVer i w =>
     have hij : i ≠ j := by intro e; subst e; simp [Op.writes] at h
     exact setMsg_msg_ne _ _ hij
 
@@ -1161,7 +1186,7 @@ theorem get_content_history_independent (C : Codecs) (s0 s0' : State) (h0 : s0.c
 
 private theorem fixLen_again (m : Msg) (v : Bytes) (h : m.raw = some v) :
     fixLen { fixLen m with raw := some v } = fixLen m := by
-  obtain ⟨raw, ce, te, cl⟩ := m
+  obtain ⟨raw, ce, te, cl, tr, ver⟩ := m
   simp only at h
   subst h
   cases te <;> rfl
@@ -1333,7 +1358,7 @@ private theorem getContent_shape {C : Codecs} {c : Cache} (hi : Inv C c) (m : Ms
     · left; simp only [if_true]; exact ⟨raw, c, rfl⟩
 
 private theorem fixLen_idem (m : Msg) : fixLen (fixLen m) = fixLen m := by
-  obtain ⟨raw, ce, te, cl⟩ := m
+  obtain ⟨raw, ce, te, cl, tr, ver⟩ := m
   cases te <;> rfl
 
 /-- a message without Content-Encoding whose Content-Length is already in order is a fixed point of `Message.decode` -/
@@ -1349,15 +1374,15 @@ private theorem msgDecode_plain {C : Codecs} {c : Cache} (hi : Inv C c) (m : Msg
       simp only [hr, hce]
     rw [hg]
     simp only
-    have hm : (⟨some d, none, m.te, m.cl⟩ : Msg) = m := by
-      obtain ⟨raw, ce, te, cl⟩ := m
+    have hm : (⟨some d, none, m.te, m.cl, m.tr, m.ver⟩ : Msg) = m := by
+      obtain ⟨raw, ce, te, cl, tr, ver⟩ := m
       simp only at hce hr
       subst hce
       subst hr
       rfl
     rw [hm, setContent_identity hi m d .verr (by rw [hce]; exact kind_eff_identityB)]
     have hm2 : ({ m with raw := some d } : Msg) = m := by
-      obtain ⟨raw, ce, te, cl⟩ := m
+      obtain ⟨raw, ce, te, cl, tr, ver⟩ := m
       simp only at hr
       subst hr
       rfl
@@ -1391,7 +1416,7 @@ private theorem msgDecode_again {C : Codecs} {c : Cache} (hi : Inv C c) (m : Msg
           simp only [hr, he, Bool.false_eq_true, if_false]
           rw [hg]
           simp only
-          rw [setContent_identity hic ⟨some raw, none, m.te, m.cl⟩ d .verr kind_eff_identityB]
+          rw [setContent_identity hic ⟨some raw, none, m.te, m.cl, m.tr, m.ver⟩ d .verr kind_eff_identityB]
         rw [hmd]
         refine ⟨rfl, fun f2 => ?_⟩
         exact msgDecode_plain hic _ d (by rw [fixLen_raw]) (by rw [fixLen_ce]) (fixLen_idem _) st f2
@@ -1554,15 +1579,15 @@ theorem decode_encode_preserves_interleaved (C : Codecs) (s0 : State) (h0 : s0.c
 
 private theorem msgEncode_cached {C : Codecs} {c : Cache} (hi : Inv C c) (m : Msg) (v cd : Bytes) (f : Res)
     (hr : m.raw = some v) (hk : kindOf (effName (some cd)) = .cached) (hf : f = C.enc (effName (some cd)) strictB v) :
-    ∃ x c', msgEncode c m cd f = (.done, c', fixLen ⟨some x, some cd, m.te, m.cl⟩) ∧
+    ∃ x c', msgEncode c m cd f = (.done, c', fixLen ⟨some x, some cd, m.te, m.cl, m.tr, m.ver⟩) ∧
       C.dec (effName (some cd)) strictB x = .ok v := by
-  obtain ⟨raw, ce, te, cl⟩ := m
+  obtain ⟨raw, ce, te, cl, tr, ver⟩ := m
   simp only at hr
   subst hr
-  obtain ⟨x, c', hs, h1, _, _⟩ := setContent_cached hi ⟨some v, some cd, te, cl⟩ v f hk hf
+  obtain ⟨x, c', hs, h1, _, _⟩ := setContent_cached hi ⟨some v, some cd, te, cl, tr, ver⟩ v f hk hf
   refine ⟨x, c', ?_, h1⟩
-  have hme : msgEncode c ⟨some v, ce, te, cl⟩ cd f =
-      (match setContent c ⟨some v, some cd, te, cl⟩ (some v) f with
+  have hme : msgEncode c ⟨some v, ce, te, cl, tr, ver⟩ cd f =
+      (match setContent c ⟨some v, some cd, te, cl, tr, ver⟩ (some v) f with
        | (.done, c', m') => if m'.ce.isNone then (.verr, c', m') else (.done, c', m')
        | (r, c', m') => (r, c', m')) := rfl
   rw [hme, hs]
@@ -1634,13 +1659,13 @@ private theorem msgDecode_len (c : Cache) (m : Msg) (st : Bool) (f : Res) (r : B
     (hr : m.raw = some r) (he : r.isEmpty = false) (hd : (msgDecode c m st f).1 = .done) :
     (m.te = false → ∃ raw, (msgDecode c m st f).2.2.raw = some raw ∧ (msgDecode c m st f).2.2.cl = some raw.length) ∧
     (msgDecode c m st f).2.2.te = m.te := by
-  obtain ⟨raw, ce, te, cl⟩ := m
+  obtain ⟨raw, ce, te, cl, tr, ver⟩ := m
   simp only at hr
   subst hr
-  have hnd := getContent_ne_done c ⟨some r, ce, te, cl⟩ st f
+  have hnd := getContent_ne_done c ⟨some r, ce, te, cl, tr, ver⟩ st f
   unfold msgDecode at hd ⊢
   simp only [he, Bool.false_eq_true, if_false] at hd ⊢
-  generalize getContent c ⟨some r, ce, te, cl⟩ st f = p at hd hnd ⊢
+  generalize getContent c ⟨some r, ce, te, cl, tr, ver⟩ st f = p at hd hnd ⊢
   obtain ⟨r', c'⟩ := p
   cases r' with
   | ok d =>
@@ -1657,23 +1682,23 @@ private theorem msgEncode_len (c : Cache) (m : Msg) (cd : Bytes) (f : Res) (r : 
     (hr : m.raw = some r) (hne : (msgEncode c m cd f).1 ≠ .terr) :
     (m.te = false → ∃ raw, (msgEncode c m cd f).2.2.raw = some raw ∧ (msgEncode c m cd f).2.2.cl = some raw.length) ∧
     (msgEncode c m cd f).2.2.te = m.te := by
-  obtain ⟨raw, ce, te, cl⟩ := m
+  obtain ⟨raw, ce, te, cl, tr, ver⟩ := m
   simp only at hr
   subst hr
-  rcases setContent_res_cases c ⟨some r, some cd, te, cl⟩ r f with hdone | hterr
-  · have hst : (msgEncode c ⟨some r, ce, te, cl⟩ cd f).2 = (setContent c ⟨some r, some cd, te, cl⟩ (some r) f).2 :=
-      msgEncode_state c ⟨some r, ce, te, cl⟩ cd f hdone
+  rcases setContent_res_cases c ⟨some r, some cd, te, cl, tr, ver⟩ r f with hdone | hterr
+  · have hst : (msgEncode c ⟨some r, ce, te, cl, tr, ver⟩ cd f).2 = (setContent c ⟨some r, some cd, te, cl, tr, ver⟩ (some r) f).2 :=
+      msgEncode_state c ⟨some r, ce, te, cl, tr, ver⟩ cd f hdone
     rw [hst]
     have := setContent_len _ _ _ _ hdone
     exact ⟨this.1, this.2.2⟩
   · exfalso
     apply hne
-    have hme : msgEncode c ⟨some r, ce, te, cl⟩ cd f =
-        (match setContent c ⟨some r, some cd, te, cl⟩ (some r) f with
+    have hme : msgEncode c ⟨some r, ce, te, cl, tr, ver⟩ cd f =
+        (match setContent c ⟨some r, some cd, te, cl, tr, ver⟩ (some r) f with
          | (.done, c', m') => if m'.ce.isNone then (.verr, c', m') else (.done, c', m')
          | (r', c', m') => (r', c', m')) := rfl
     rw [hme]
-    generalize setContent c ⟨some r, some cd, te, cl⟩ (some r) f = p at hterr
+    generalize setContent c ⟨some r, some cd, te, cl, tr, ver⟩ (some r) f = p at hterr
     obtain ⟨r', c', m'⟩ := p
     simp only at hterr
     subst hterr
@@ -1717,29 +1742,190 @@ private theorem assign_len (C : Codecs) (s : State) (i : Bool) (op : Op) (h : co
   | setCe j v => exact absurd h (by simp [completesAssign])
   | setTe j on => exact absurd h (by simp [completesAssign])
   | setCl j n => exact absurd h (by simp [completesAssign])
+  | setTr j t => exact absurd h (by simp [completesAssign])
+  | setVer j w => exact absurd h (by simp [completesAssign])
 
-/-- **C31 (Content-Length, carried along the history).** After any history `ops`: if `op` is a content assignment
+private theorem core_msg (s : State) (i : Bool) : (s.core).msg i = (s.msg i).core := by cases i <;> rfl
+
+private theorem core_setMsg (s : State) (i : Bool) (m : Msg) : (s.setMsg i m).core = s.core.setMsg i m.core := by
+  cases i <;> rfl
+
+/-- an op that does not write message `j`, or that only sets its trailers / version, leaves raw body,
+    Content-Encoding, Transfer-Encoding and Content-Length of message `j` alone -/
+private theorem body_frame (C : Codecs) (s : State) (op : Op) (j : Bool)
+    (h : op.writes j = false ∨ op.setsMeta j = true) : ((step C s op).1.msg j).core = (s.msg j).core := by
+  rcases h with h | h
+  · rw [message_ops_isolated C s op j h]
+  · cases op with
+    | setTr i t =>
+      have hij : i = j := by simpa [Op.setsMeta] using h
+      subst hij
+      show ((s.setMsg i { s.msg i with tr := t }).msg i).core = _
+      rw [setMsg_msg]; rfl
+    | setVer i w =>
+      have hij : i = j := by simpa [Op.setsMeta] using h
+      subst hij
+      show ((s.setMsg i { s.msg i with ver := w }).msg i).core = _
+      rw [setMsg_msg]; rfl
+    | dec x c e => simp [Op.setsMeta] at h
+    | enc d c e => simp [Op.setsMeta] at h
+    | setContent i v => simp [Op.setsMeta] at h
+    | getContent i st => simp [Op.setsMeta] at h
+    | mdecode i st => simp [Op.setsMeta] at h
+    | mencode i cd => simp [Op.setsMeta] at h
+    | setRaw i v => simp [Op.setsMeta] at h
+    | setCe i v => simp [Op.setsMeta] at h
+    | setTe i on => simp [Op.setsMeta] at h
+    | setCl i n => simp [Op.setsMeta] at h
+
+private theorem run_body_frame (C : Codecs) (j : Bool) (tail : List Op) :
+    ∀ s, (∀ o ∈ tail, o.writes j = false ∨ o.setsMeta j = true) → ((run C s tail).1.msg j).core = (s.msg j).core := by
+  induction tail with
+  | nil => intro s _; rfl
+  | cons o tail ih =>
+    intro s h
+    simp only [run]
+    rw [ih _ (fun o' ho' => h o' (List.mem_cons_of_mem _ ho')), body_frame C s o j (h o List.mem_cons_self)]
+
+/-- **C31 (Content-Length, carried along the history — for every value of trailers and version).** After any
+    history `ops` from any state (any trailers, any HTTP version on either message): if `op` is a content assignment
     on message `i` that ran to completion (`set_content(bytes)`, `Message.decode` of a non-empty body,
     `Message.encode` of a present body) and the message has no Transfer-Encoding header, then after ANY further
-    sub-history `tail` without writes to message `i` (reads, ops on the other message, module-level codec calls)
-    Content-Length still equals the length of the raw body.  Holds for every coding and whatever the codecs return. -/
+    sub-history `tail` whose ops either do not write message `i` (reads, ops on the other message, module-level codec
+    calls) or only (re)set ITS TRAILERS OR VERSION, Content-Length still equals the length of the raw body.  Holds for
+    every coding and whatever the codecs return. -/
 theorem content_length_invariant (C : Codecs) (s0 : State) (ops tail : List Op) (i : Bool) (op : Op)
     (hop : completesAssign C (run C s0 ops).1 i op)
     (hte : ((step C (run C s0 ops).1 op).1.msg i).te = false)
-    (htail : ∀ o ∈ tail, o.writes i = false) :
+    (htail : ∀ o ∈ tail, o.writes i = false ∨ o.setsMeta i = true) :
     ∃ raw, ((run C s0 (ops ++ op :: tail)).1.msg i).raw = some raw ∧
       ((run C s0 (ops ++ op :: tail)).1.msg i).cl = some raw.length := by
-  rw [run_append, run_cons_fst, run_frame C i tail _ htail]
-  exact assign_len C _ i op hop hte
+  rw [run_append, run_cons_fst]
+  have hf := run_body_frame C i tail (step C (run C s0 ops).1 op).1 htail
+  obtain ⟨raw, h1, h2⟩ := assign_len C _ i op hop hte
+  refine ⟨raw, ?_, ?_⟩
+  · have : ((run C (step C (run C s0 ops).1 op).1 tail).1.msg i).core.raw = some raw := by rw [hf]; exact h1
+    exact this
+  · have : ((run C (step C (run C s0 ops).1 op).1 tail).1.msg i).core.cl = some raw.length := by rw [hf]; exact h2
+    exact this
+
+/-! ### trailers / version are read by nothing -/
+
+private theorem fixLen_core (m : Msg) : fixLen m.core = (fixLen m).core := by
+  unfold fixLen
+  show (if m.te = true then m.core else _) = _
+  split <;> rfl
+
+private theorem setContent_core (c : Cache) (m : Msg) (v : Option Bytes) (f : Res) :
+    setContent c m.core v f = ((setContent c m v f).1, (setContent c m v f).2.1, (setContent c m v f).2.2.core) := by
+  cases v with
+  | none => rfl
+  | some v =>
+    unfold setContent
+    show (match encodeStep c v (ceOrIdentity m.ce) strictB f with
+      | (.ok x, c') => (Res.done, c', fixLen ({ m with raw := some x } : Msg).core)
+      | (.verr, c') => (.done, c', fixLen ({ m with raw := some v, ce := none } : Msg).core)
+      | (_, c') => (.terr, c', m.core)) = _
+    simp only
+    generalize encodeStep c v (ceOrIdentity m.ce) strictB f = p
+    obtain ⟨r, c'⟩ := p
+    cases r <;> simp only [fixLen_core]
+
+private theorem msgDecode_core (c : Cache) (m : Msg) (st : Bool) (f : Res) :
+    msgDecode c m.core st f = ((msgDecode c m st f).1, (msgDecode c m st f).2.1, (msgDecode c m st f).2.2.core) := by
+  unfold msgDecode
+  show (match m.raw with
+    | none => (Res.done, c, m.core)
+    | some raw => if raw.isEmpty then (.done, c, m.core)
+      else match getContent c m st f with
+        | (.ok d, c') => setContent c' ({ m with ce := none } : Msg).core (some d) .verr
+        | (r, c') => (r, c', m.core)) = _
+  cases m.raw with
+  | none => rfl
+  | some raw =>
+    simp only
+    split
+    · rfl
+    · generalize getContent c m st f = p
+      obtain ⟨r, c'⟩ := p
+      cases r <;> simp only [setContent_core]
+
+private theorem msgEncode_core (c : Cache) (m : Msg) (cd : Bytes) (f : Res) :
+    msgEncode c m.core cd f = ((msgEncode c m cd f).1, (msgEncode c m cd f).2.1, (msgEncode c m cd f).2.2.core) := by
+  unfold msgEncode
+  show (match setContent c ({ m with ce := some cd } : Msg).core m.raw f with
+    | (.done, c', m') => if m'.ce.isNone then (Res.verr, c', m') else (.done, c', m')
+    | (r, c', m') => (r, c', m')) = _
+  rw [setContent_core]
+  generalize setContent c { m with ce := some cd } m.raw f = p
+  obtain ⟨r, c', m'⟩ := p
+  cases r <;> simp only
+  show (if m'.ce.isNone then _ else _) = _
+  split <;> rfl
+
+private theorem need_core (s : State) (op : Op) : need s.core op = need s op := by
+  cases op <;> simp only [need, core_msg] <;> rfl
+
+/-- **C31 (trailers and HTTP version are irrelevant).** For every op, in every state: running it on the state with all
+    trailers / versions blanked gives the same result, the same cache and — up to those two fields — the same
+    messages.  Nothing in set_content / get_content / Message.decode / Message.encode (in particular not the
+    Content-Length rule) reads a message's trailers or version. -/
+theorem trailers_irrelevant (C : Codecs) (s : State) (op : Op) :
+    (step C s.core op).2 = (step C s op).2 ∧ (step C s.core op).1.core = (step C s op).1.core := by
+  have hf : freshOf C s.core op = freshOf C s op := by simp only [freshOf, need_core]
+  cases op with
+  | dec x c e => unfold step; rw [hf]; exact ⟨rfl, rfl⟩
+  | enc d c e => unfold step; rw [hf]; exact ⟨rfl, rfl⟩
+  | getContent i st =>
+    unfold step; rw [hf]
+    simp only [stepWith, core_msg]
+    exact ⟨rfl, rfl⟩
+  | setContent i v =>
+    rw [step_set, step_set, hf, core_msg, setContent_core]
+    refine ⟨rfl, ?_⟩
+    simp only [core_setMsg]
+    rfl
+  | mdecode i st =>
+    rw [step_mdecode, step_mdecode, hf, core_msg, msgDecode_core]
+    refine ⟨rfl, ?_⟩
+    simp only [core_setMsg]
+    rfl
+  | mencode i cd =>
+    rw [step_mencode, step_mencode, hf, core_msg, msgEncode_core]
+    refine ⟨rfl, ?_⟩
+    simp only [core_setMsg]
+    rfl
+  | setRaw i v => refine ⟨rfl, ?_⟩; simp only [step, stepWith, core_setMsg, core_msg]; rfl
+  | setCe i v => refine ⟨rfl, ?_⟩; simp only [step, stepWith, core_setMsg, core_msg]; rfl
+  | setTe i on => refine ⟨rfl, ?_⟩; simp only [step, stepWith, core_setMsg, core_msg]; rfl
+  | setCl i n => refine ⟨rfl, ?_⟩; simp only [step, stepWith, core_setMsg, core_msg]; rfl
+  | setTr i t => refine ⟨rfl, ?_⟩; simp only [step, stepWith, core_setMsg, core_msg]; rfl
+  | setVer i w => refine ⟨rfl, ?_⟩; simp only [step, stepWith, core_setMsg, core_msg]; rfl
+
+/-- … lifted to whole histories: results never depend on trailers / version, of either message, at any point -/
+theorem trailers_irrelevant_history (C : Codecs) (ops : List Op) :
+    ∀ s t : State, s.core = t.core → (run C s ops).2 = (run C t ops).2 ∧ (run C s ops).1.core = (run C t ops).1.core := by
+  induction ops with
+  | nil => intro s t h; exact ⟨rfl, h⟩
+  | cons op ops ih =>
+    intro s t h
+    have hs := trailers_irrelevant C s op
+    have ht := trailers_irrelevant C t op
+    rw [h] at hs
+    have h2 : (step C s op).2 = (step C t op).2 := by rw [← hs.1, ht.1]
+    have h1 : (step C s op).1.core = (step C t op).1.core := by rw [← hs.2, ht.2]
+    obtain ⟨ih2, ih1⟩ := ih _ _ h1
+    simp only [run]
+    exact ⟨by rw [h2, ih2], ih1⟩
 
 /-! ### non-vacuity for the round-3 theorems (kernel-evaluated on `toy`) -/
 
 -- `contentOf` is not constant: bytes / strict error / non-strict fallback / missing body / text codec
 example : contentOf toy okState.m0 true = .ok [7, 8] ∧
-    contentOf toy ⟨some [3, 3], some brN, false, none⟩ true = .verr ∧
-    contentOf toy ⟨some [3, 3], some brN, false, none⟩ false = .ok [3, 3] ∧
-    contentOf toy ⟨none, some brN, false, none⟩ true = .nil ∧
-    contentOf toy ⟨some [5], some utf8N, false, none⟩ true = .verr := by decide
+    contentOf toy ⟨some [3, 3], some brN, false, none, .absent, .h11⟩ true = .verr ∧
+    contentOf toy ⟨some [3, 3], some brN, false, none, .absent, .h11⟩ false = .ok [3, 3] ∧
+    contentOf toy ⟨none, some brN, false, none, .absent, .h11⟩ true = .nil ∧
+    contentOf toy ⟨some [5], some utf8N, false, none, .absent, .h11⟩ true = .verr := by decide
 -- the hypotheses of the tail theorems are satisfiable by tails that really disturb the cache
 example : ∀ o ∈ [Op.getContent false true, .setContent true (some [9]), .enc [9, 9] gzipN strictB, .mencode true brN],
     o.writes false = false := by decide
@@ -1752,18 +1938,38 @@ example : (run toy okState [.mdecode false true, .enc [9, 9] gzipN strictB, .set
     .getContent false true]).2.getLast? = some (.ok [7, 8]) := by decide
 -- the same history: Content-Length of message 0 follows its raw body (3 bytes: 1 :: [7, 8])
 example : (run toy okState [.mdecode false true, .enc [9, 9] gzipN strictB, .mencode false brN,
-    .setContent true (some [5]), .getContent false true]).1.m0 = ⟨some [1, 7, 8], some brN, false, some 3⟩ := by decide
+    .setContent true (some [5]), .getContent false true]).1.m0 = ⟨some [1, 7, 8], some brN, false, some 3, .absent, .h11⟩ := by decide
 -- encode after encode wraps: raw [7] -> br [1,7] -> gzip [1,1,7]; the content is then the br stream, not [7]
-example : (run toy ⟨none, ⟨some [7], none, false, none⟩, emptyMsg⟩
+example : (run toy ⟨none, ⟨some [7], none, false, none, .absent, .h11⟩, emptyMsg⟩
     [.mencode false brN, .mencode false gzipN, .getContent false true]) =
-    (⟨some ⟨[1, 1, 7], gzipN, strictB, [1, 7]⟩, ⟨some [1, 1, 7], some gzipN, false, some 3⟩, emptyMsg⟩,
+    (⟨some ⟨[1, 1, 7], gzipN, strictB, [1, 7]⟩, ⟨some [1, 1, 7], some gzipN, false, some 3, .absent, .h11⟩, emptyMsg⟩,
      [.done, .done, .ok [1, 7]]) := by decide
 -- set twice = set once (whole state), decode twice = decode once, also when the strict decode fails
 example : (run toy okState [.setContent false (some [4]), .setContent false (some [4])]).1 =
     (run toy okState [.setContent false (some [4])]).1 := by decide
 example : (run toy okState [.mdecode false true, .mdecode false true]) =
-    (⟨some ⟨[1, 7, 8], brN, strictB, [7, 8]⟩, ⟨some [7, 8], none, false, some 2⟩, emptyMsg⟩, [.done, .done]) := by decide
-example : (run toy ⟨none, ⟨some [3, 3], some brN, false, none⟩, emptyMsg⟩ [.mdecode false true, .mdecode false true]) =
-    (⟨none, ⟨some [3, 3], some brN, false, none⟩, emptyMsg⟩, [.verr, .verr]) := by decide
+    (⟨some ⟨[1, 7, 8], brN, strictB, [7, 8]⟩, ⟨some [7, 8], none, false, some 2, .absent, .h11⟩, emptyMsg⟩, [.done, .done]) := by decide
+example : (run toy ⟨none, ⟨some [3, 3], some brN, false, none, .absent, .h11⟩, emptyMsg⟩ [.mdecode false true, .mdecode false true]) =
+    (⟨none, ⟨some [3, 3], some brN, false, none, .absent, .h11⟩, emptyMsg⟩, [.verr, .verr]) := by decide
+
+/-! ### non-vacuity, round 5: messages WITH trailers (the dimension seed c31-5 lives in) -/
+
+-- response with non-empty trailers, HTTP/2, no Transfer-Encoding, stale Content-Length 12: assigning refreshes it
+example : (step toy ⟨none, ⟨some [9, 9, 9], none, false, some 12, .nonEmpty, .h2⟩, emptyMsg⟩
+    (.setContent false (some [4, 4]))).1.m0 = ⟨some [4, 4], none, false, some 2, .nonEmpty, .h2⟩ := by decide
+-- the decode and encode variants, trailers / version being changed along the way
+example : (run toy okState [.setTr false .nonEmpty, .setCl false (some 99), .mdecode false true, .setTr false .empty,
+    .setVer false .h3, .getContent false true]).1.m0 = ⟨some [7, 8], none, false, some 2, .empty, .h3⟩ := by decide
+example : (run toy okState [.setTr false .nonEmpty, .setVer false .h2, .setCl false (some 99), .mdecode false true,
+    .mencode false gzipN]).1.m0 = ⟨some [1, 7, 8], some gzipN, false, some 3, .nonEmpty, .h2⟩ := by decide
+-- with Transfer-Encoding the (stale) Content-Length is left alone — trailers or not
+example : (step toy ⟨none, ⟨some [9], none, true, some 12, .nonEmpty, .h11⟩, emptyMsg⟩
+    (.setContent false (some [4, 4]))).1.m0.cl = some 12 := by decide
+-- the widened tail hypothesis of `content_length_invariant` is satisfiable by a tail that sets trailers and version
+example : ∀ o ∈ [Op.setTr false .nonEmpty, .setVer false .h3, .getContent false true, .setContent true (some [1])],
+    o.writes false = false ∨ o.setsMeta false = true := by decide
+-- `core` really forgets something, and only trailers / version
+example : (⟨some [1], some brN, true, some 5, .nonEmpty, .h3⟩ : Msg).core = ⟨some [1], some brN, true, some 5, .absent, .h11⟩ ∧
+    (⟨some [1], some brN, true, some 5, .nonEmpty, .h3⟩ : Msg).core ≠ ⟨some [1], some brN, true, some 5, .nonEmpty, .h3⟩ := by decide
 
 end MitmVerif.Props.C31
